@@ -27,6 +27,7 @@ fn base_cfg(time_based: bool) -> CbCfg {
         slow_rate: 1.0,
         custom_classifier: false,
         fallback: false,
+        fallback_gated: false,
     }
 }
 
@@ -46,6 +47,16 @@ fn c03_configs(tier: Tier) -> Vec<c03::C03> {
                     }
                     v.push(c03::C03 { cfg, callers: tier.pick(3, 4), max_ticks: tier.pick(4, 5), max_drops: 1, max_force: 1 });
                 }
+            }
+            if fallback {
+                // the fallback's future stays pending until released: an open call must still
+                // be answered (its fallback started) at once, and nobody else may be held up
+                let mut cfg = base_cfg(time_based);
+                cfg.fallback = true;
+                cfg.fallback_gated = true;
+                cfg.window_size = 1;
+                cfg.min_calls = Some(1);
+                v.push(c03::C03 { cfg, callers: 3, max_ticks: tier.pick(2, 4), max_drops: 0, max_force: 1 });
             }
             // a short wait (one grid step): open, wait, trial, the trial outlasts another wait
             // and fails, re-open - the shield must start again from the re-opening - all
@@ -106,7 +117,7 @@ fn main() {
             let mut rep = Report::new("C03", tier, "model_checking");
             rep.rule = "BFS over action histories {Arrive,Poll,Drop,Complete(ok|err),Tick,ForceOpen} of the real CircuitBreaker (with and without fallback) under virtual time; before every action the lock-free state and the transition log are sampled, after it the inner call log is inspected".into();
             rep.assumptions = vec!["prompt executor; interleaving granularity is one Future::poll (state is behind a tokio Mutex never held across an await)".into()];
-            for w in ["rejected_while_open", "call_in_flight_while_open", "opened_by_force_open", "opened_by_recorded_outcomes", "went_half_open_after_wait", "reopened_by_a_failed_trial"] {
+            for w in ["rejected_while_open", "call_in_flight_while_open", "opened_by_force_open", "opened_by_recorded_outcomes", "went_half_open_after_wait", "reopened_by_a_failed_trial", "fallback_pending_while_others_are_served"] {
                 rep.require_witness(w);
             }
             let depth = tier.pick(10, 13);
